@@ -414,3 +414,22 @@ func writeJSON(path string, v interface{}) {
 	}
 	os.WriteFile(path, append(b, '\n'), 0o644)
 }
+
+// shareFrom runs another property's rule function in a scratch context that shares this context's kernel cache and
+// re-files the obligations selected by match under newRule: one analysis, several properties that depend on its result.
+func shareFrom(c *Ctx, newRule string, ruleFn func(*Ctx), match func(o *Obligation) bool) int {
+	sub := NewCtx(c.P, c.Prop, c.Tier)
+	sub.Kernels = c.Kernels
+	sub.KStats = c.KStats
+	ruleFn(sub)
+	c.Engines = append(c.Engines, sub.Engines...)
+	n := 0
+	for _, o := range sub.Obs {
+		if !match(o) {
+			continue
+		}
+		n++
+		c.ob(newRule, o.Fn, strings.TrimPrefix(o.Key, o.Rule+" | "+o.Fn+" | "), o.Pos, o.Status, o.Detail, o.NonTrivial)
+	}
+	return n
+}
